@@ -48,6 +48,28 @@ def scan_names(e, acc):
     return acc
 
 
+def every_name(st, acc):
+    """Every Variable name written anywhere in the statement, function positions of calls included (what a fresh name must differ from)."""
+    import pymbolic.primitives as p
+
+    def walk(e):
+        if isinstance(e, p.Variable):
+            acc.add(e.name)
+        elif isinstance(e, p.Expression):
+            for c in api.children(e):
+                walk(c)
+        elif isinstance(e, (tuple, list)):
+            for c in e:
+                walk(c)
+        elif hasattr(e, "values"):
+            for c in e.values():
+                walk(c)
+    for part in ("lhs", "rhs", "condition"):
+        if hasattr(st, part):
+            walk(getattr(st, part))
+    return acc
+
+
 def ref_reads(st):
     import pymbolic.primitives as p
     from pymbolic.imperative.statement import Assignment, ConditionalStatement
@@ -88,6 +110,8 @@ def statements_pool():
         # attribute names that are spelled like identifiers of the streams: an attribute name is not an identifier
         lambda id, dep: Assignment(b_, p.Sum((p.Lookup(c, "a"), a, p.Lookup(p.Variable("f"), "i"))), id=id, depends_on=dep),
         lambda id, dep: ConditionalAssignment(lhs=i, rhs=p.Lookup(a, "b"), condition=p.Comparison(p.Lookup(b_, "a"), "<", a), id=id, depends_on=dep),
+        # a called function whose name is spelled like a generated fresh name
+        lambda id, dep: Assignment(c, p.Call(p.Variable("b_0"), (b_, 1)), id=id, depends_on=dep),
     ]
 
 
@@ -219,8 +243,12 @@ def bounded(tier, seed, procs):
                         cause = "reads-ignore-subscripted-lhs"
                 else:
                     fresh = {v.name for v in subst.values()}
+                    names_all = set()
+                    for s_ in list(A) + list(B):
+                        every_name(s_, names_all)
                     if fresh & (idsA | idsB) or len(fresh) != len(subst):
                         why = f"replacement names {sorted(fresh)} are not fresh"
+                    fn_clash = sorted(fresh & names_all) if why is None else None
                     ren = {k: v.name for k, v in subst.items()}
                     for s_old, s_new in zip(B, newB):
                         if (ref_reads(s_new) | ref_writes(s_new)) != {ren.get(n, n) for n in ref_reads(s_old) | ref_writes(s_old)}:
@@ -231,6 +259,9 @@ def bounded(tier, seed, procs):
                     idsNew = set().union(*[ref_reads(s) | ref_writes(s) for s in newB]) if newB else set()
                     if idsA & idsNew & want_keys:
                         why = f"streams still share {sorted(idsA & idsNew & want_keys)}"
+                    if why is None and fn_clash:          # attributed to the known finding only when nothing else is wrong with the case
+                        why = f"replacement names {fn_clash} are already the names of called functions"
+                        cause = "fresh-name-is-a-function-symbol"
             if why:
                 b3.fail(Failure("disambiguate", f"cause={cause} filter={fname} a={[str(s) for s in A]} b={[str(s) for s in B]} why={why}",
                                 dict(kind="disamb", a=[str(s) for s in A], b=[str(s) for s in B], filter=fname), expected="exactly the clashing identifiers renamed consistently", actual=why,
